@@ -76,7 +76,7 @@ pub struct Scn {
 }
 
 const SITES: &[&str] = &[
-    "x", "xy", "text", "textel", "data", "class", "comment", "var", "circle-r", "line-x2", "points", "wh", "style", "id-ref", "id", "g-id", "eq-bounds",
+    "x", "xy", "text", "textel", "data", "data-huge", "class", "comment", "var", "circle-r", "line-x2", "points", "wh", "style", "id-ref", "id", "g-id", "eq-bounds",
 ];
 
 fn fstr(x: f32) -> String {
@@ -107,6 +107,7 @@ fn render_items(items: &[Item], in_template: bool, out: &mut String) {
                     "text" => format!("<rect xy=\"0 {j}\" wh=\"2\" text=\"{m}_{B}\"/>"),
                     "textel" => format!("<text xy=\"0 {j}\">{m}_{B}</text>"),
                     "data" => format!("<rect xy=\"0 {j}\" wh=\"2\" data-k=\"{m}_{B}\"/>"),
+                    "data-huge" => format!("<rect xy=\"0 {j}\" wh=\"2\" data-k=\"{m}_{B} {}\"/>", "z".repeat(66_000)),
                     "class" => format!("<rect xy=\"0 {j}\" wh=\"2\" class=\"{m}_{{{{randint(0,999999)}}}}\"/>"),
                     "style" => format!("<rect xy=\"0 {j}\" wh=\"2\" style=\"--k:{m}_{B}\"/>"),
                     "comment" => format!("<rect xy=\"0 {j}\" wh=\"2\" _=\"{m}_{B}\"/>"),
@@ -669,6 +670,9 @@ fn malformed_site(site: &str, e: &str) -> String {
     // loop control attributes are expression contexts of their own: no braces needed
     let bare = e.trim_start_matches("{{").trim_end_matches("}}");
     match site {
+        // the expression sits at the end of a very long attribute value
+        "data-huge" => format!("<rect wh=\"1\" data-k=\"{}{e}\"/>", "x".repeat(70_000)),
+        "text-huge" => format!("<rect wh=\"1\" text=\"{e}{}\"/>", " y".repeat(40_000)),
         "for-data" => format!("<for data=\"{e}\" var=\"fv\"><rect wh=\"1\" text=\"$fv\"/></for>"),
         "for-data-bare" => format!("<for data=\"1, {bare}\" var=\"fv\"><rect wh=\"1\" text=\"$fv\"/></for>"),
         "if-test-bare" => format!("<if test=\"{bare}\"><rect wh=\"1\"/></if>"),
@@ -698,7 +702,7 @@ fn malformed_site(site: &str, e: &str) -> String {
 
 const MALFORMED_SITES: &[&str] = &[
     "x", "text", "textel", "data", "comment", "var", "loop-count", "if-test", "g-attr", "in-group", "in-loop", "reuse-attr",
-    "template", "points", "style", "wh", "for-data", "for-data-bare", "if-test-bare", "loop-while", "loop-until", "loop-start", "loop-step",
+    "template", "points", "style", "wh", "data-huge", "text-huge", "for-data", "for-data-bare", "if-test-bare", "loop-while", "loop-until", "loop-start", "loop-step",
 ];
 
 impl Engine for C14 {
@@ -719,7 +723,7 @@ impl Engine for C14 {
             // malformed family
             let (kind, expr) = *w.pick(MALFORMED);
             let site = *w.pick(MALFORMED_SITES);
-            let neighbour = *w.pick(&["alone", "fwd-sibling", "fwd-sibling-before", "inside-retried-group", "after-retried-group"]);
+            let neighbour = *w.pick(&["alone", "fwd-sibling", "fwd-sibling-before", "inside-retried-group", "after-retried-group", "before-long-chain", "after-long-chain"]);
             let mal = malformed_site(site, expr);
             let pre = if kind == "circular-variable" { "<var ca=\"$cb\"/><var cb=\"$ca\"/>" } else { "" };
             // (the group is put around the whole body below)
@@ -729,6 +733,20 @@ impl Engine for C14 {
                 "fwd-sibling" => format!("{mal}<rect xy=\"#later|h\" wh=\"1\"/><rect id=\"later\" wh=\"2\"/>"),
                 "fwd-sibling-before" => format!("<rect xy=\"#later|h\" wh=\"1\"/>{mal}<rect id=\"later\" wh=\"2\"/>"),
                 "inside-retried-group" => format!("<g><rect xy=\"#later|v\" wh=\"1\"/>{mal}</g><rect id=\"later\" wh=\"2\"/>"),
+                // a sibling list which needs well over a hundred retry passes
+                "before-long-chain" | "after-long-chain" => {
+                    let n = 110 + w.below(60);
+                    let mut chain = String::new();
+                    for i in 0..n {
+                        chain.push_str(&format!("<rect id=\"lc{i}\" xy=\"#lc{}|h\" wh=\"1\"/>", i + 1));
+                    }
+                    chain.push_str(&format!("<rect id=\"lc{n}\" xy=\"0 0\" wh=\"1\"/>"));
+                    if neighbour == "before-long-chain" {
+                        format!("{mal}{chain}")
+                    } else {
+                        format!("{chain}{mal}")
+                    }
+                }
                 _ => format!("<g><rect xy=\"#later|v\" wh=\"1\"/></g>{mal}<rect id=\"later\" wh=\"2\"/>"),
             };
             let scn = Scn {
